@@ -375,6 +375,38 @@ func c07Requeue(c *Ctx, r *R) {
 			}
 		}
 	}
+	// every entry for another reference is re-queued: from the `different reference` edge the next
+	// candidate is reached only through an append to the new queue; and the same-reference region
+	// re-queues only propagation entries
+	diff := eng.RelEdges(fn, token.NEQ, eng.PMethod("GetRefName", nil), eng.PMethod("GetRefName", nil))
+	var appInstrs []ssa.Instruction
+	for _, a := range x.singleApp {
+		appInstrs = append(appInstrs, a.Instr)
+	}
+	hs := loopHeads(fn)
+	okReq := len(diff) == 1
+	for _, e := range diff {
+		if p := eng.FindPath(e.To(), 0, func(in ssa.Instruction) bool { return hs[in] || isSuccessReturn(in) }, eng.NewCut().AddInstrs(appInstrs...)); p != nil {
+			okReq = false
+		}
+	}
+	for _, a := range x.singleApp {
+		inDiff, inProp := false, false
+		for _, e := range diff {
+			if eng.EdgeDominates(e, a.Block()) {
+				inDiff = true
+			}
+		}
+		for _, g := range eng.GuardsAt(a.Block()) {
+			if typeAssertOK(g.Cond, "pkg/rsl.PropagationEntry") && g.Pol {
+				inProp = true
+			}
+		}
+		if !inDiff && !inProp {
+			okReq = false
+		}
+	}
+	r.Check(okReq, "requeue-exactly-others", fn.Pos(), "exactly the entries for other references (and propagation entries) are re-queued, all of them", "the re-queueing of entries met during the fix search is not `every entry whose reference differs from the invalid entry's` (+ propagation entries): entries are dropped, or same-reference entries escape the skipped-intermediate check")
 	r.Check(otherRef, "other-refs-requeued", fn.Pos(), "entries for other references met during the search are appended to the new queue", "entries for other references met while searching for the fix are no longer re-queued (policy / attestation entries between violation and fix would be dropped)")
 	// (b) remainder appended onto the accumulated queue
 	if len(x.spread) != 1 {
